@@ -289,6 +289,7 @@ structure RestartFacts (c : Cfg) (a a' : ANode) (clean : Bool) : Prop where
   height : a'.n.store.height = a.n.store.height
   blocks : ∀ k, k ≤ a.n.store.height → a'.n.store.getBlock k = a.n.store.getBlock k
   daBlobs : a'.daBlobs = a.daBlobs
+  daBytes : a'.daBytes = a.daBytes
   daH : a'.daH = a.daH
   finals : a'.finals = a.finals
   hMarks : a'.hMarks = if clean then a.hMarks else []
@@ -345,11 +346,12 @@ theorem R.restart {c : Cfg} {a : ANode} (r : R c a) (clean : Bool) :
       exact ⟨w, q1, by unfold wmRaise; rw [if_pos hc]; exact q2⟩
     · rw [if_neg hc] at e
       exact ⟨x, by rw [wmOf_congr_meta e]; exact hx, by unfold wmRaise; rw [if_neg hc]; exact Nat.le_refl _⟩
-  have hr : ∃ a', Submit.restart c a a.n.store clean = some a' ∧ a'.n = n ∧ a'.daBlobs = a.daBlobs ∧ a'.daH = a.daH ∧
+  have hr : ∃ a', Submit.restart c a a.n.store clean = some a' ∧ a'.n = n ∧ a'.daBlobs = a.daBlobs ∧
+      a'.daBytes = a.daBytes ∧ a'.daH = a.daH ∧
       a'.finals = a.finals ∧ a'.hMarks = (if clean then a.hMarks else []) ∧ a'.dMarks = (if clean then a.dMarks else []) ∧
       a'.daInc = loadInc c n.store := by
-    unfold Submit.restart; rw [hst]; exact ⟨_, rfl, rfl, rfl, rfl, rfl, rfl, rfl, rfl⟩
-  obtain ⟨a', hr, hn, hda, hdah, hfin, hhm, hdm, hinc⟩ := hr
+    unfold Submit.restart; rw [hst]; exact ⟨_, rfl, rfl, rfl, rfl, rfl, rfl, rfl, rfl, rfl⟩
+  obtain ⟨a', hr, hn, hda, hdby, hdah, hfin, hhm, hdm, hinc⟩ := hr
   subst hn
   have hinc' : a'.daInc = loadInc c a.n.store := by rw [hinc, loadInc_congr hmd]
   have hincle : a'.daInc ≤ a.daInc := by rw [hinc']; exact r.pdw.2
@@ -357,7 +359,7 @@ theorem R.restart {c : Cfg} {a : ANode} (r : R c a) (clean : Bool) :
     h.mono (by rw [hheq]; exact Nat.le_refl _) hblk' (fun e he => by rw [hda]; exact he)
   have tD : ∀ k dh, DataOnDA a k dh → DataOnDA a' k dh := fun k dh h =>
     h.mono (by rw [hheq]; exact Nat.le_refl _) hblk' (fun e he => by rw [hda]; exact he)
-  refine ⟨a', hr, ?_, ⟨?_, ?_, hheq, hblk', hda, hdah, hfin, hhm, hdm, hinc', hmd⟩⟩
+  refine ⟨a', hr, ?_, ⟨?_, ?_, hheq, hblk', hda, hdby, hdah, hfin, hhm, hdm, hinc', hmd⟩⟩
   · refine { pinv := hl.toInv, low := ?_, le := ?_, dlow := ?_, dle := ?_, acc := ?_, mh := ?_, dacc := ?_, live := hl,
              synced := hsy, ph := ?_, pd := ?_, g := ?_, pdw := ?_ }
     · rw [e3]; exact (wmRaise_ge c _).2
